@@ -356,6 +356,14 @@ class FnVerifier(Verifier):
         l_ = z3.Int('l!len')
         ln0 = st.arr('$len', z3.ArraySort(I, I))
         st.pc.append(z3.ForAll([l_], z3.Select(ln0, l_) >= 0, patterns=[z3.Select(ln0, l_)]))
+        # closed heap: what an allocated list holds is allocated (so fresh objects differ from all stored ones)
+        from pv.state import ARR_II
+        al = st.arr('$alloc', z3.ArraySort(I, B))
+        el = st.arr('$elR', z3.ArraySort(I, ARR_II))
+        i_ = z3.Int('i!el')
+        e_ = z3.Select(z3.Select(el, l_), i_)
+        st.pc.append(z3.ForAll([l_, i_], z3.Implies(z3.And(0 <= i_, i_ < z3.Select(ln0, l_)),
+                                                    z3.Or(e_ <= 0, z3.Select(al, e_))), patterns=[e_]))
         for th in ctr.theories:
             fn = THEORIES.get(th)
             if fn is None:
